@@ -33,8 +33,12 @@ func backendPolicy(b BK, inlineTrait bool) pw.Policy {
 			if inlineTrait && (sameRecvNamed(fn, "Trait") || sameRecvNamed(fn, "TraitOf")) {
 				return true
 			}
-			sig, _ := fn.Type().(*types.Signature)
-			return sig != nil && sig.Recv() == nil && !fn.Exported() && fn.Pkg() != nil && fn.Pkg().Name() == "cache"
+			if sameRecvNamed(fn, "Trait") || sameRecvNamed(fn, "TraitOf") || sameRecvNamed(fn, "logTrait") {
+				return false
+			}
+			// unexported helpers of the package (functions and methods of helper types: per-shard methods, typed map wrappers,
+			// visitor structs) belong to the operation that calls them
+			return !fn.Exported() && fn.Pkg() != nil && fn.Pkg().Name() == "cache"
 		},
 		Pure:     basePure,
 		Role:     BaseRole,
